@@ -330,11 +330,21 @@ func VerifC20Concurrent() {
 	w := &world{be: be, bs: brain.New(be, m, peers), es: etcd.New(be, m, peers)}
 	ctx := context.Background()
 	kind := zzverif.Choose("kind", 4)
-	done := make(chan struct{}, 2)
+	// Natively the goroutines cannot be steered into the window between "not registered yet" and
+	// "registered": more requests start at the same moment (and the driver repeats the run).
+	n := 2
+	if !zzverif.Symbolic() {
+		n = zzverif.Param("native_requests", 12)
+	}
+	done := make(chan struct{}, n)
+	start := make(chan struct{})
 	zzverif.ExploreSchedules(zzverif.Param("preempt", 1))
-	for i := 0; i < 2; i++ {
+	for i := 0; i < n; i++ {
 		key := []byte{'/', 'r', '/', byte('a' + i)}
 		zzverif.Go("q"+string(rune('0'+i)), func() {
+			if !zzverif.Symbolic() {
+				<-start
+			}
 			switch kind {
 			case 0:
 				w.bs.Get(ctx, &proto.GetRequest{Key: key})
@@ -348,8 +358,10 @@ func VerifC20Concurrent() {
 			done <- struct{}{}
 		})
 	}
-	<-done
-	<-done
+	close(start)
+	for i := 0; i < n; i++ {
+		<-done
+	}
 	zzverif.StopExploring()
 	zzverif.WaitIdle()
 	cr, err := w.bs.Create(ctx, &proto.CreateRequest{Key: []byte("/r/fresh"), Value: []byte("v")})
